@@ -334,8 +334,12 @@ def divide_zero(state):
     """Zero Divider
 
     Returns:
-        ``[0, 0]`` regardless of input
+        ``[0, 0]`` regardless of input (zero in the mother's units if
+        her value is a quantity, so that a variable with units keeps
+        holding a quantity)
     """
+    if isinstance(state, Quantity):
+        return [0 * state.units, 0 * state.units]
     return [0, 0]
 
 
